@@ -21,7 +21,8 @@ def P(chk, ex, path, name, pre, goal, desc):
     k, v, st = path
     pre = [pre] if pre is not None and not isinstance(pre, (list, tuple)) else list(pre or [])
     goal = z3.BoolVal(goal) if isinstance(goal, bool) else goal
-    return chk.prove(name, list(st.pc) + pre, goal, desc=desc, describe=describe_path(ex, st), replay=ex.replay_fn(path) if hasattr(ex, "replay_fn") else None,
+    return chk.prove(name, list(st.pc) + pre, goal, desc=desc, describe=ex.describe_fn(path) if hasattr(ex, "describe_fn") else describe_path(ex, st),
+                     replay=ex.replay_fn(path) if hasattr(ex, "replay_fn") else None,
                      sample=f"{ex.kind}: outcome={k}:{exc_class(v) if k == 'raise' else 'value'} trace={[e.kind + ':' + str(e.d.get('name', e.d.get('outcome', ''))) for e in st.trace]}")
 
 
@@ -412,7 +413,7 @@ def c03_sync_before_outcome(chk, ex, prefix="C03"):
             P(chk, ex, path, f"{prefix}.{kind}.sync_before_outcome.value", None, goal,
               "a value computed by the user function is returned only after a synchronous SUCCEED of this operation (carrying it) was accepted; it is the last update")
         elif raised_by_handler(v, ("CallableRuntimeError",)) or (kind in ("wfc", "child") and isinstance(v, Ref) and v.cls == "symexc" and any(e.kind == "raised" and e.name in USER_FUNCS | {"wait_strategy", "SerDes.serialize", "summary_generator"} for e in st.trace)):
-            if kind == "child":
+            if True:
                 # SuspendExecution from the body passes through unrecorded (the inner operation parked itself); other BaseExceptions too
                 sym = isinstance(v, Ref) and v.cls == "symexc"
                 if sym:
@@ -422,8 +423,6 @@ def c03_sync_before_outcome(chk, ex, prefix="C03"):
                     pre = is_exc
                 else:
                     pre = None
-            else:
-                pre = None
             term = [(j, c) for j, c in ok_cps if j > last_uc]
             if term:
                 j, c = term[-1]
@@ -434,17 +433,23 @@ def c03_sync_before_outcome(chk, ex, prefix="C03"):
               "the operation's final error is raised only after a synchronous FAIL of this operation was accepted; it is the last update")
 
 
-def c03_sync_before_suspend(chk, ex, prefix="C03"):
+def c03_sync_before_suspend(chk, ex, prefix="C03", domain=None):
     eng, kind = ex.eng, ex.kind
+    rec0 = ex.inputs["rec0"]
     for path in ex.paths:
         k, v, st = path
         if k != "raise" or not raised_by_handler(v, SUSPEND):
             continue
         n = len(st.trace)
         lr = last_read_before(st, n)
+        dom = None
+        if domain is not None:  # B1: statuses the backend can hold for this operation type
+            dom = z3.And([z3.Or(is_none(e.rec), status_in(eng, st, e.rec, domain)) for _, e in reads(st)])
+            if not feasible_pre(ex, st, dom):
+                continue
         parked_cp = [z3.And(sync_term(c), own_cp(ex, st, c), z3.Or(action_is(eng, st, c, "START"), action_is(eng, st, c, "RETRY"))) for _, c in cps(st, "ok")]
         nonterminal = z3.And(z3.Not(is_none(lr)), z3.Not(status_in(eng, st, lr, TERMINAL))) if lr is not None else F
-        P(chk, ex, path, f"{prefix}.{kind}.sync_before_suspend", None, z3.Or(parked_cp + [nonterminal]),
+        P(chk, ex, path, f"{prefix}.{kind}.sync_before_suspend", dom, z3.Or(parked_cp + [nonterminal]),
           "a suspension is raised only after a synchronous START/RETRY of this operation was accepted in this call, or the record already exists in a non-terminal state")
 
 
@@ -506,6 +511,10 @@ def c11_lifecycle(chk, ex, status_domain):
         k, v, st = path
         dom = z3.Or(is_none(rec0), status_in(eng, st, rec0, status_domain))  # B1: statuses this operation type can have
         all_cps = cps(st)
+        if kind == "child" and any(e.kind == "raised" and e.name == "child_func" for e in st.trace):
+            rn, rc = details_field(st, rec0, "context_details", "replay_children")
+            if rc is not None:  # U: a deterministic body does not fail when re-traversed over a SUCCEEDED summary record
+                dom = z3.And(dom, z3.Not(z3.And(status_in(eng, st, rec0, ["SUCCEEDED"]), z3.Not(rn), zbool(rc))))
         ids = st.get(ident)
         for j, c in all_cps:
             P(chk, ex, path, f"C11.{kind}.ids_passthrough", None,
@@ -535,3 +544,150 @@ def c11_lifecycle(chk, ex, status_domain):
                 later = [c2 for j2, c2 in all_cps if j2 > j and c.outcome == "ok"]
                 P(chk, ex, path, f"C11.{kind}.start_before_finish", z3.And(dom, fin), z3.And(started_before, z3.BoolVal(not later)),
                   "RETRY/SUCCEED/FAIL only after a START (in this call or recorded), and nothing follows an accepted terminal/retry update in the same call")
+
+
+# ------------------------------------------------------------------------------------------------ C14
+def c14_callback_create(chk, ex):
+    eng, rec0 = ex.eng, ex.inputs["rec0"]
+    cfg = ex.inputs["cfg"]
+    for path in ex.paths:
+        k, v, st = path
+        if not feasible_pre(ex, st, is_none(rec0)):
+            continue
+        all_cps = cps(st)
+        ok = len(all_cps) >= 1
+        goal = z3.BoolVal(ok)
+        if ok:
+            j, c = all_cps[0]
+            co = strip_opt(upd(st, c, "callback_options"))
+            cfgv = strip_opt(cfg)
+            if isinstance(co, Ref):
+                o = st.get(co)
+                if cfgv is not None:
+                    cs = st.get(cfgv)
+                    t_exp = z3.If(is_none(cfg), 0, zint(st.get(cs["timeout"])["seconds"]))
+                    h_exp = z3.If(is_none(cfg), 0, zint(st.get(cs["heartbeat_timeout"])["seconds"]))
+                else:
+                    t_exp = h_exp = z3.IntVal(0)
+                opts_ok = z3.And(zint(o["timeout_seconds"]) == t_exp, zint(o["heartbeat_timeout_seconds"]) == h_exp)
+            else:
+                opts_ok = F
+            goal = z3.And(action_is(eng, st, c, "START"), type_is(eng, st, c, "CALLBACK"), sync_term(c), own_cp(ex, st, c), opts_ok, z3.BoolVal(len(all_cps) == 1))
+            if c.outcome == "ok":
+                lr = [e for i, e in reads(st) if i > j]
+                if k == "val":
+                    if lr:
+                        cd = opfield(st, lr[-1].rec, "callback_details")
+                        cid = st.get(strip_opt(cd))["callback_id"] if strip_opt(cd) is not None else None
+                        goal = z3.And(goal, ops.values_equal(st, v, cid) if cid is not None else F)
+                    else:
+                        goal = F
+                else:
+                    goal = z3.And(goal, z3.BoolVal(exc_class(v) == "CallbackError"))
+        P(chk, ex, path, "C14.callback.create", is_none(rec0), goal,
+          "no record => exactly one synchronous CALLBACK START carrying the configured timeouts; returns the callback id of the re-read record (CallbackError if the backend sent no details)")
+
+
+def c14_callback_result(chk, ex):
+    eng, rec0 = ex.eng, ex.inputs["rec0"]
+    self_ = ex.inputs["self"]
+    for path in ex.paths:
+        k, v, st = path
+        none_effects = not cps(st) and not user_calls(st)
+        cases = [("absent", is_none(rec0)), ("failed", status_in(eng, st, rec0, ["FAILED", "CANCELLED", "TIMED_OUT", "STOPPED"])), ("succeeded", status_in(eng, st, rec0, ["SUCCEEDED"])),
+                 ("outstanding", status_in(eng, st, rec0, ["STARTED", "PENDING", "READY"]))]
+        for cname, pre in cases:
+            if not feasible_pre(ex, st, pre):
+                continue
+            if cname == "absent":
+                goal = z3.BoolVal(none_effects and k == "raise" and exc_class(v) == "CallbackError")
+            elif cname == "failed":
+                ok = none_effects and k == "raise" and exc_class(v) == "CallbackError"
+                goal = z3.BoolVal(ok)
+                if ok:
+                    en, err = details_field(st, rec0, "callback_details", "error")
+                    msg = st.get(err)["message"] if err is not None else None
+                    has_msg = z3.And(z3.Not(en), ops.truth(st, msg)) if msg is not None else F
+                    got = ex.eng.exc_message(v, st)
+                    goal = z3.And(goal, z3.If(has_msg, ops.values_equal(st, got, strip_opt(msg)) if msg is not None else F, ops.values_equal(st, got, "Callback failed")))
+            elif cname == "succeeded":
+                rn, rv = details_field(st, rec0, "callback_details", "result")
+                sid = serdes_id(st, st.get(self_)["serdes"], "PASSTHROUGH")
+                if k == "val":
+                    goal = z3.And(z3.BoolVal(none_effects), z3.If(rn, is_none(v) if v is not None else T, any_eq(strip_opt(v), deser_term(sid, rv)) if rv is not None and v is not None else F))
+                else:
+                    des = [e for e in st.trace if e.kind == "raised" and e.name == "SerDes.deserialize"]
+                    goal = z3.And(z3.BoolVal(none_effects and bool(des) and (exc_class(v) == "ExecutionError" or v == des[-1].exc)), z3.Not(rn))
+            else:
+                goal = z3.BoolVal(none_effects and k == "raise" and exc_class(v) == "SuspendExecution")
+            P(chk, ex, path, f"C14.callback.result.{cname}", pre, goal,
+              {"absent": "no record => CallbackError", "failed": "failure / timeout / cancellation / stop => CallbackError with the recorded message",
+               "succeeded": "SUCCEEDED => exactly the delivered payload (through the configured serdes, pass-through by default), None when no payload",
+               "outstanding": "outstanding callback => suspends (no timer), no update"}[cname])
+
+
+def c14_invoke(chk, ex):
+    eng, rec0 = ex.eng, ex.inputs["rec0"]
+    self_, cfg = ex.inputs["self"], ex.inputs["cfg"]
+    for path in ex.paths:
+        k, v, st = path
+        all_cps = cps(st)
+        if feasible_pre(ex, st, z3.Not(is_none(rec0))):
+            P(chk, ex, path, "C14.invoke.no_restart", z3.Not(is_none(rec0)), len(all_cps) == 0, "an invoke that already has a record is never started again")
+        if feasible_pre(ex, st, is_none(rec0)):
+            ser_raised = any(e.kind == "raised" and e.name == "SerDes.serialize" for e in st.trace)
+            if ser_raised:
+                P(chk, ex, path, "C14.invoke.start_once", is_none(rec0), len(all_cps) == 0 and k == "raise", "payload cannot be serialized => nothing is sent, the call raises")
+            else:
+                ok = len(all_cps) == 1
+                goal = z3.BoolVal(ok)
+                if ok:
+                    j, c = all_cps[0]
+                    s_ = st.get(self_)
+                    ser = ser_of(st, s_["payload"])
+                    sid = serdes_id(st, st.get(cfg)["serdes_payload"], "JSON")
+                    cio = strip_opt(upd(st, c, "chained_invoke_options"))
+                    opts = z3.And(ops.values_equal(st, st.get(cio)["function_name"], s_["function_name"]), ops.values_equal(st, st.get(cio)["tenant_id"], st.get(cfg)["tenant_id"])) if isinstance(cio, Ref) else F
+                    goal = z3.And(action_is(eng, st, c, "START"), type_is(eng, st, c, "CHAINED_INVOKE"), sync_term(c), own_cp(ex, st, c), opts,
+                                  z3.And(ops.values_equal(st, upd(st, c, "payload"), ser[1]), z3.IntVal(ser[0].oid) == sid) if ser else F)
+                P(chk, ex, path, "C14.invoke.start_once", is_none(rec0), goal,
+                  "no record => exactly one synchronous CHAINED_INVOKE START with serialize(payload serdes, payload), the target function name and tenant id")
+        out = status_in(eng, st, rec0, ["STARTED", "PENDING", "READY"])
+        if feasible_pre(ex, st, out):
+            P(chk, ex, path, "C14.invoke.outstanding_suspends", out, k == "raise" and exc_class(v) in SUSPEND and not all_cps, "outstanding invoke => suspends, sends nothing")
+
+
+# ------------------------------------------------------------------------------------------------ C16 (child part)
+def c16_child_summary(chk, ex, limit):
+    eng = ex.eng
+    cfg = ex.inputs["cfg"]
+    for path in ex.paths:
+        k, v, st = path
+        succ = [(j, c) for j, c in cps(st) if not isinstance(upd(st, c, "action"), type(None))]
+        for j, c in cps(st):
+            is_succ = action_is(eng, st, c, "SUCCEED")
+            if not feasible_pre(ex, st, is_succ):
+                continue
+            uc = [e for i, e in user_calls(st) if i < j]
+            if not uc:
+                P(chk, ex, path, "C16.child.summary_only", is_succ, F, "SUCCEED only after the body ran")
+                continue
+            body_val = uc[-1].d["result"]
+            ser = ser_of(st, body_val)
+            if ser is None:
+                P(chk, ex, path, "C16.child.summary_only", is_succ, F, "SUCCEED carries the serialized result or its summary")
+                continue
+            sd, ser_str = ser
+            slen = z3.Function("slen", z3.StringSort(), z3.IntSort())(ser_str.t)
+            co = strip_opt(upd(st, c, "context_options"))
+            rc = zbool(st.get(co)["replay_children"]) if isinstance(co, Ref) else None
+            payload = upd(st, c, "payload")
+            sg = st.get(cfg)["summary_generator"]
+            summ = [e for i, e in enumerate(st.trace) if e.kind == "call" and e.name == "summary_generator" and i < j]
+            if summ:
+                big_payload = z3.And(z3.Not(is_none(sg)), ops.values_equal(st, payload, summ[-1].d["result"]), z3.BoolVal(summ[-1].args[0] is body_val or (is_sym(summ[-1].args[0], "any") and z3.eq(summ[-1].args[0].t, body_val.t))))
+            else:
+                big_payload = z3.And(is_none(sg), ops.values_equal(st, payload, ""))
+            goal = z3.If(slen > limit, z3.And(rc if rc is not None else F, big_payload), z3.And(z3.Not(rc) if rc is not None else F, ops.values_equal(st, payload, ser_str), z3.BoolVal(not summ)))
+            P(chk, ex, path, "C16.child.summary_only", is_succ, z3.And(goal, sync_term(c), z3.Not(is_none(upd(st, c, "context_options")))),
+              f"serialized result longer than {limit} => only the summary (or '') is recorded with replay_children=True; otherwise the serialized result with replay_children=False")
